@@ -19,7 +19,7 @@ RULE = ("Charts of all five games (SM with its nine lists; empty lists; all-empt
 TOLERANCES = {"cells": "numeric equality (1 == 1.0), NaN-aware; dtype drift counted, not judged"}
 ASSUMPTIONS = ["row labels are not part of the statement (they become stack positions)", "all edits go through the stack while it is in use"]
 
-OPS = {"+": operator.add, "-": operator.sub, "*": operator.mul, "/": operator.truediv}
+OPS = {"+": operator.add, "-": operator.sub, "*": operator.mul, "/": operator.truediv, "nan": lambda cur, v: cur * float("nan")}
 CMP = {"<": operator.lt, "<=": operator.le, ">": operator.gt, ">=": operator.ge, "==": operator.eq, "!=": operator.ne}
 NUMERIC = ["offset", "column", "length", "bpm", "metronome"]
 GAME_COLS = {"osu": ["volume", "hitsound_set", "sample_set", "custom_set"], "qua": [], "bms": [], "o2j": [], "sm": []}
@@ -59,6 +59,12 @@ def gen(rng, tier, k):
             ops.append(dict(kind="col_scalar", col=rng.choice(cols), v=rng.choice([0, 1, 5.5, 120]), restack=restack))
         elif r < 0.6:
             ops.append(dict(kind="col_expr", col=rng.choice(["offset", "length"]), other=rng.choice(["offset", "column"]), restack=restack))
+        elif r < 0.67:
+            # missing values are values: assigning NaN to the selection, or keeping a column only where a condition holds
+            c = rng.choice(["offset", "length", "bpm", "column"])
+            ops.append(dict(kind="loc", preds=[[c, rng.choice(["<", ">="]), rng.choice([0, 100.0, 500.0, 120.0, 2])]], targets=[rng.choice(["offset", "length", "bpm"])],
+                            opr="nan", v=0, restack=restack, single_str=rng.random() < 0.5) if rng.random() < 0.5 else
+                       dict(kind="col_where", col=c, th=rng.choice([0, 100.0, 500.0, 120.0, 2]), restack=restack))
         else:
             np_ = rng.choice([1, 1, 2])
             preds = [[rng.choice(NUMERIC), rng.choice(["<", "<=", ">", ">=", "=="]), rng.choice([0, 1, 2, 3, 100.0, 250.0, 500.0, 1000.0, 120.0, 4])] for _ in range(np_)]
@@ -99,7 +105,13 @@ def model_apply(lists, in_stack, op):
             elif op["kind"] == "col_expr" and op["col"] in have:
                 for r in rows:
                     o = num(r[op["other"]]) if op["other"] in have else 0.0
+                    o = 0.0 if isinstance(o, float) and math.isnan(o) else o  # the right-hand side fills missing values with 0
                     r[op["col"]] = num(r[op["col"]]) + o
+            elif op["kind"] == "col_where" and op["col"] in have:
+                for r in rows:
+                    x = num(r[op["col"]])
+                    if not (isinstance(x, (int, float)) and not (isinstance(x, float) and math.isnan(x)) and x >= op["th"]):
+                        r[op["col"]] = float("nan")
             elif op["kind"] == "loc":
                 for r in rows:
                     ok = all(c in have and not (isinstance(num(r[c]), float) and math.isnan(num(r[c]))) and CMP[cm](num(r[c]), th) for c, cm, th in op["preds"])
@@ -124,6 +136,8 @@ def do_op(stack, op):
         stack[op["col"]] = op["v"]
     elif op["kind"] == "col_expr":
         stack[op["col"]] = stack[op["col"]] + stack[op["other"]].fillna(0)
+    elif op["kind"] == "col_where":
+        stack[op["col"]] = stack[op["col"]].where(stack[op["col"]] >= op["th"])
     else:
         mask = None
         for c, cm, th in op["preds"]:
